@@ -283,6 +283,8 @@ class Monitor:
         self.last_event_time = 0
         self.sched_invocations = []
         self.cw_placed, self.cw_cancelled = set(), set()
+        self.sched_returns = []
+        self.sched_offers = []
         self.now = 0
 
     # ---- helpers
@@ -387,6 +389,8 @@ class Monitor:
             self.sched_invocations.append(t.time)
             if "C18" in self.on:
                 self.frontier_oracle(sim, t)
+            if "C08" in self.on:
+                self.sched_offers.append({"time": t.time, "offered": len(self.offer(sim, t)), "resident": sum(len(l) for l in self.ledger.values())})
 
     def offer(self, sim, t, lookahead=None, rtg=None, retract=None):
         sch = sim._scheduler
@@ -723,6 +727,18 @@ def run(env, spec, oracles, after=None):
     mon = Monitor(W, oracles, default_budget(spec))
     W.mon = mon
     MON = mon
+    if "C08" in mon.on:
+        orig_schedule8 = W.scheduler.schedule
+
+        def schedule8(sim_time, workload, worker_pools):
+            pls = orig_schedule8(sim_time, workload, worker_pools)
+            lst = list(pls)
+            placed = sum(1 for p in lst if p.placement_type == Placement.PlacementType.PLACE_TASK and p.is_placed())
+            unplaced = sum(1 for p in lst if p.placement_type == Placement.PlacementType.PLACE_TASK and not p.is_placed())
+            mon.sched_returns.append({"time": sim_time.time, "placed": placed, "unplaced": unplaced, "runtime": pls.runtime.time})
+            return pls
+
+        W.scheduler.schedule = schedule8
     if "C15" in mon.on:
         orig_schedule = W.scheduler.schedule
 
@@ -815,6 +831,8 @@ def end_oracles(W, mon):
         c06_end(W, mon)
     if "C07" in mon.on:
         c07_end(W, mon)
+    if "C08" in mon.on:
+        c08_end(W, mon)
     if "C12" in mon.on:
         for tn, t in W.tasks.items():
             if t.state == TaskState.COMPLETED:
@@ -923,3 +941,182 @@ def c07_end(W, mon):
                 continue
             mon.req("C07", "join-and-successors-complete-once", t.state == TaskState.COMPLETED and len(mon.starts[x]) == 1 and len(mon.finishes[x]) == 1,
                     f"{x} is {t.state.name} starts={len(mon.starts[x])} (untaken: {sorted(untaken)})")
+
+
+def c08_end(W, mon):
+    """The CSV trace and the end-of-run counters against what the monitor saw, then the project's own
+    CSVReader on the same rows (cells that depend on symbolic inputs are engine tokens)."""
+    env = W.env
+    eng = None if env.concrete else env.eng
+
+    def cell(x):
+        if eng is not None:
+            t = eng.untoken(x)
+            if t is not None:
+                return t
+        try:
+            return int(x)
+        except ValueError:
+            return x
+
+    rows = [r.split(",") for r in W.csv.rows]
+    by = {}
+    for r in rows:
+        if len(r) > 1:
+            by.setdefault(r[1], []).append(r)
+    tasks = W.tasks
+    done = [tn for tn, t in tasks.items() if t.state == TaskState.COMPLETED]
+    canc = [tn for tn, t in tasks.items() if t.state == TaskState.CANCELLED]
+    # ---- summary row
+    end = by.get("SIMULATOR_END", [])
+    mon.req("C08", "one-summary-row", len(end) == 1)
+    if len(end) == 1:
+        e = [cell(x) for x in end[0]]
+        missed = 0
+        for tn in done:
+            missed = missed + pysym.site(tasks[tn].completion_time.time > tasks[tn].deadline.time, 1, 0)
+        gfin, gcan, gmiss = 0, 0, 0
+        for gname, tg in W.task_graphs.items():
+            sinks = [t for t in tg.get_nodes() if not tg.get_children(t)]
+            if all(t.state == TaskState.COMPLETED for t in sinks):
+                gfin += 1
+                comp = sinks[0].completion_time.time
+                for t in sinks[1:]:
+                    comp = pysym.site(t.completion_time.time > comp, t.completion_time.time, comp)
+                dl = None
+                for t in tg.get_nodes():
+                    dl = t.deadline.time if dl is None else pysym.site(t.deadline.time > dl, t.deadline.time, dl)
+                gmiss = gmiss + pysym.site(comp > dl, 1, 0)
+            if any(t.state == TaskState.CANCELLED for t in sinks):
+                gcan += 1
+        mon.req("C08", "summary-finished-tasks", e[2] == len(done), f"row {end[0]} vs {len(done)}")
+        mon.req("C08", "summary-cancelled-tasks", e[3] == len(canc), f"row {end[0]} vs {sorted(canc)}")
+        mon.req("C08", "summary-missed-task-deadlines", e[4] == missed, f"row {end[0]}")
+        mon.req("C08", "summary-finished-graphs", e[5] == gfin, f"row {end[0]} vs {gfin}")
+        mon.req("C08", "summary-cancelled-graphs", e[6] == gcan, f"row {end[0]} vs {gcan}")
+        mon.req("C08", "summary-missed-graph-deadlines", e[7] == gmiss, f"row {end[0]}")
+    # ---- per-task rows
+    ids = {t.id: tn for tn, t in tasks.items()}
+    rel_rows = {ids.get(r[7]): [cell(x) for x in r] for r in by.get("TASK_RELEASE", []) if len(r) > 9}
+    plc_rows = {}
+    for r in by.get("TASK_PLACEMENT", []):
+        plc_rows.setdefault(ids.get(r[5]), []).append([cell(x) for x in r])
+    fin_rows = {}
+    for r in by.get("TASK_FINISHED", []):
+        fin_rows.setdefault(ids.get(r[7]), []).append([cell(x) for x in r])
+    can_rows = {}
+    for r in by.get("TASK_CANCEL", []):
+        can_rows.setdefault(ids.get(r[4]), []).append([cell(x) for x in r])
+    miss_rows = {}
+    for r in by.get("MISSED_DEADLINE", []):
+        miss_rows.setdefault(ids.get(r[5]), []).append([cell(x) for x in r])
+    for tn, t in tasks.items():
+        if mon.release_calls[tn] and t.state not in (TaskState.VIRTUAL,):
+            r = rel_rows.get(tn)
+            mon.req("C08", "release-row-present", r is not None, tn)
+            if r is not None:
+                slow = t.available_execution_strategies.get_slowest_strategy()
+                mon.req("C08", "release-row-true", sand(r[0] == t.release_time.time, r[5] == t.release_time.time, r[4] == t.intended_release_time.time,
+                                                        r[6] == t.deadline.time, r[9] == slow.runtime.time, r[2] == tn, r[8] == W.graph_of[tn]), f"{tn}: {r}")
+        if mon.starts[tn]:
+            rs = plc_rows.get(tn, [])
+            mon.req("C08", "placement-row-present", len(rs) == len(mon.starts[tn]), tn)
+            if rs:
+                r = rs[-1]
+                st = mon.start_strategy.get(tn)
+                conds = [r[0] == mon.starts[tn][-1], r[2] == tn, r[3] == W.graph_of[tn]]
+                if st is not None:
+                    conds.append(r[7] == st.runtime.time)
+                    # resources: name, id, quantity triples
+                    alloc = {}
+                    for i in range(8, len(r) - 2, 3):
+                        alloc[r[i]] = alloc.get(r[i], 0) + r[i + 2]
+                    for rr, q in st.resources.resources:
+                        if not (isinstance(q, int) and q == 0):
+                            conds.append(alloc.get(rr.name, 0) == q)
+                chosen = mon.chosen.get(tn)
+                if chosen is not None:
+                    conds.append(r[6] == chosen[2])
+                mon.req("C08", "placement-row-true", sand(*conds), f"{tn}: {r}")
+        else:
+            mon.req("C08", "no-placement-row-for-unstarted-task", tn not in plc_rows, tn)
+        if t.state == TaskState.COMPLETED:
+            rs = fin_rows.get(tn, [])
+            mon.req("C08", "finish-row-present", len(rs) == 1, tn)
+            if rs:
+                r = rs[0]
+                mon.req("C08", "finish-row-true", sand(r[0] == t.completion_time.time, r[5] == t.completion_time.time, r[6] == t.deadline.time, r[2] == tn), f"{tn}: {r}")
+            late = t.completion_time.time > t.deadline.time
+            has = len(miss_rows.get(tn, [])) == 1
+            mon.req("C08", "miss-row-iff-late", sor(sand(late, has), sand(snot(late), not miss_rows.get(tn))), tn)
+            if miss_rows.get(tn):
+                r = miss_rows[tn][0]
+                mon.req("C08", "miss-row-true", sand(r[0] == t.completion_time.time, r[4] == t.deadline.time), f"{tn}: {r}")
+        else:
+            mon.req("C08", "no-finish-row-for-unfinished-task", tn not in fin_rows and tn not in miss_rows, tn)
+        if t.state == TaskState.CANCELLED and mon.ended:
+            rs = can_rows.get(tn, [])
+            mon.req("C08", "cancel-row-present", len(rs) == 1, tn)
+            if rs:
+                mon.req("C08", "cancel-row-true", sand(rs[0][0] == t.cancellation_time.time, rs[0][2] == tn, rs[0][5] == W.graph_of[tn]), f"{tn}: {rs[0]}")
+        elif t.state != TaskState.CANCELLED:
+            mon.req("C08", "no-cancel-row-for-live-task", tn not in can_rows, tn)
+    # ---- scheduler rows
+    deferred = []  # obligations with a known finding go last, so that they cannot mask the others on their paths
+    ss = [[cell(x) for x in r] for r in by.get("SCHEDULER_START", [])]
+    sf = [[cell(x) for x in r] for r in by.get("SCHEDULER_FINISHED", [])]
+    mon.req("C08", "scheduler-rows-paired", len(ss) == len(mon.sched_offers) and len(sf) <= len(ss) and len(sf) == len(mon.sched_returns) - (1 if len(mon.sched_returns) > len(sf) else 0))
+    for k, r in enumerate(ss[: len(mon.sched_offers)]):
+        o = mon.sched_offers[k]
+        mon.req("C08", "scheduler-start-row-true", sand(r[0] == o["time"], r[2] == o["offered"], r[3] == o["resident"]), f"{r} vs {o}")
+    for k, r in enumerate(sf[: len(mon.sched_returns)]):
+        o = mon.sched_returns[k]
+        mon.req("C08", "scheduler-finished-row-placed", sand(r[0] == o["time"] + o["runtime"], r[2] == o["runtime"], r[3] == o["placed"]), f"{r} vs {o}")
+        deferred.append(("scheduler-finished-row-unplaced", r[4] == o["unplaced"], f"{r} vs {o}"))
+    # ---- the project's own reader
+    if mon.ended:
+        from data.csv_reader import CSVReader
+
+        rd = CSVReader.__new__(CSVReader)
+        rd._simulators = {}
+        import contextlib
+        import io
+
+        buf = io.StringIO()
+        try:
+            with contextlib.redirect_stdout(buf):  # the reader prints a note for row types it does not know
+                rd.parse_events({"trace": rows})
+            accepted = True
+            why = None
+        except (ValueError, AssertionError, KeyError) as e:
+            accepted = False
+            why = f"{type(e).__name__}: {e} / {e.__cause__!r}"[:300]
+        mon.req("C08", "reader-accepts-trace", accepted, why)
+        if accepted:
+            simr = rd._simulators["trace"]
+            rt = {x.task_id: x for x in simr.tasks}
+            for tn, t in tasks.items():
+                x = rt.get(t.id)
+                if x is None:
+                    mon.req("C08", "reader-knows-released-task", not mon.release_calls[tn] and t.state != TaskState.CANCELLED or tn not in rel_rows and tn not in can_rows, tn)
+                    continue
+                conds = [x.name == tn, x.task_graph == W.graph_of[tn]]
+                if t.state == TaskState.COMPLETED:
+                    conds += [x.completion_time == t.completion_time.time, x.release_time == t.release_time.time, x.deadline == t.deadline.time,
+                              x.placement_time == mon.starts[tn][-1], harness_iff(x.missed_deadline, t.completion_time.time > t.deadline.time)]
+                else:
+                    conds.append(x.completion_time is None)
+                conds.append(x.cancelled == (t.state == TaskState.CANCELLED))
+                mon.req("C08", "reader-reconstructs-task", sand(*conds), tn)
+            for gname, tg in W.task_graphs.items():
+                g = simr.task_graphs.get(gname)
+                sinks = [t for t in tg.get_nodes() if not tg.get_children(t)]
+                fin = all(t.state == TaskState.COMPLETED for t in sinks)
+                if g is not None:
+                    mon.req("C08", "reader-reconstructs-graph", sand(g.was_completed == fin, (not fin) or g.cancelled is False), gname)
+    for lab, cond, info in deferred:
+        mon.req("C08", lab, cond, info)
+
+
+def harness_iff(a, b):
+    return sor(sand(a, b), sand(snot(a), snot(b)))
